@@ -567,6 +567,22 @@ def cases(ctx: Ctx):
         cuts = sorted(set(rng.randrange(1, len(m)) for _ in range(k)))
         yield deliver_case('random', rng.choice((64, 64, 2048, 17)), msg, m, cuts, rng,
                            addr=rng.choice([None, '10.7.7.7', '192.168.1.%d' % rng.randrange(256)]))
+    # the end marker spelled INSIDE the message (here by the nonce, which travels in the clear near the end): a message is
+    # complete when the bytes received so far END with the marker, not when the marker occurs somewhere.  Every two-way cut
+    # behind the look-alike and every uniform read size -- except read boundaries directly behind the look-alike, where the
+    # framing itself cannot tell (finding F9, `noEarlyFrame_forced`)
+    for msg in valid_plaintexts()[1:4]:
+        for off in (0, 5, 12):
+            nonce = (b'\x11' * off + b'BOBO' + b'\x22' * 16)[:16]
+            m = seal(msg[1], nonce)
+            look_end = m.index(b'BOBO') + 4
+            if look_end >= len(m):
+                continue
+            for k in range(1, len(m)):
+                if k != look_end:
+                    yield deliver_case('marker-lookalike', 2048, msg, m, [k], rng)
+                    if k + 7 < len(m) and k + 7 != look_end and k % 5 == 0:
+                        yield deliver_case('marker-lookalike', 2048, msg, m, [k, k + 7], rng)
     # sequences of connections on one long-lived receiver: given-up connections followed by complete messages
     yield from sequence_cases(ctx, msgs, bigs, 600 if ctx.thorough else 120)
     # truncation at every byte, closed and silent
